@@ -9,6 +9,11 @@ pub fn replay(v: &Value) -> Result<Option<String>, String> {
     match v["engine"].as_str().unwrap_or("") {
         "e1" => {
             let g = cvm::ast::parse_g(v["grammar"].as_str().ok_or("no grammar")?)?;
+            let pair_mode = crate::e1::pair_mode_from(v["pair_mode"].as_str().unwrap_or(""));
+            let grammars = match (&g, pair_mode) {
+                (cvm::ast::G::Group(_, ab), Some(_)) if ab.len() == 2 => ab.clone(),
+                _ => vec![g],
+            };
             let input: Vec<char> = v["input"].as_str().ok_or("no input")?.chars().collect();
             let kind = KindId::from_name(v["kind"].as_str().unwrap_or("")).ok_or("unknown kind")?;
             let cfg = CfgId::from_name(v["cfg"].as_str().unwrap_or("")).ok_or("unknown cfg")?;
@@ -16,7 +21,7 @@ pub fn replay(v: &Value) -> Result<Option<String>, String> {
             let probes = Probes { span: pr[0].as_bool().unwrap_or(false), state: pr[1].as_bool().unwrap_or(false), ctx: pr[2].as_bool().unwrap_or(false) };
             let unit = E1Unit {
                 name: "replay".into(),
-                grammars: vec![g],
+                grammars,
                 class_desc: "replay".into(),
                 alphabet: vec![],
                 max_len: 0,
@@ -25,6 +30,8 @@ pub fn replay(v: &Value) -> Result<Option<String>, String> {
                 probes,
                 alarm: v["alarm"].as_u64().unwrap_or(!0) as u32,
                 skip_not_content: v["skip_not_content"].as_bool().unwrap_or(true),
+                lazy: v["lazy"].as_bool().unwrap_or(false),
+                pair_mode,
             };
             let progress = |_: usize| {};
             let cx = ShardCtx { shard: 0, nshards: 1, known: Sw::NONE, skip: vec![], progress: &progress };
